@@ -69,6 +69,35 @@ def max_precision(size):
     return p
 
 
+# ------------------------------------------------------------------ fixed corpus
+# named types with "namespace": "" / null defined INSIDE a type of a non-empty namespace, children of such a nested
+# record (they inherit the null namespace), later by-name references from null-namespace contexts
+NULL_NS_CORPUS = [
+    {"type": "record", "name": "Outer", "namespace": "org.acme", "fields": [
+        {"name": "state", "type": {"type": "enum", "name": "State", "namespace": "", "symbols": ["ON", "OFF"]}},
+        {"name": "inner", "type": {"type": "record", "name": "Inner", "namespace": "", "fields": [
+            {"name": "kid", "type": {"type": "fixed", "name": "Kid", "size": 2}},
+            {"name": "s", "type": "State", "default": "ON"},
+            {"name": "k2", "type": ["null", "Kid"]},
+            {"name": "again", "type": {"type": "array", "items": "Inner"}}]}},
+        {"name": "own", "type": {"type": "enum", "name": "State", "symbols": ["X"]}},
+        {"name": "o2", "type": "State"}]},
+    {"type": "record", "name": "org.acme.P", "fields": [
+        {"name": "crc", "type": {"type": "fixed", "name": "Crc", "namespace": None, "size": 4}},
+        {"name": "q", "type": {"type": "record", "name": "Q", "namespace": None, "fields": [
+            {"name": "c", "type": "Crc"}, {"name": "e", "type": {"type": "enum", "name": "E", "symbols": ["A"]}}]}},
+        {"name": "m", "type": {"type": "map", "values": "org.acme.P"}}]},
+    [{"type": "record", "name": "R", "namespace": "a.b", "fields": [
+        {"name": "f", "type": {"type": "enum", "name": "Color", "namespace": "", "symbols": ["RED"]}},
+        {"name": "g", "type": {"type": "record", "name": "Sub", "namespace": "", "fields": [{"name": "c", "type": "Color"}]}}]},
+     "Color", "Sub", "null"],
+    {"type": "array", "items": {"type": "record", "name": "n.T", "fields": [
+        {"name": "x", "type": {"type": "fixed", "name": "T", "namespace": "", "size": 1}},
+        {"name": "y", "type": ["null", "n.T"]},
+        {"name": "z", "type": {"type": "record", "name": "U", "namespace": "", "fields": [{"name": "t", "type": "T"}]}}]}},
+]
+
+
 # ------------------------------------------------------------------ generator of valid schemas
 class Gen:
     def __init__(self, rng, budget=12, int_float_defaults=True):
@@ -140,6 +169,8 @@ class Gen:
                 short = r.choice(list(self.defined)).rsplit(".", 1)[-1]
                 self.note("name:simple-name-reused")
             k = r.random()
+            if ns and r.random() < 0.22:
+                k = 0.8 + 0.2 * r.random()          # inside a namespace: more often an explicit "" / null namespace
             if k < 0.4:
                 attrs = {"name": short}
                 self.note("name:inherit")
@@ -192,6 +223,9 @@ class Gen:
         k = r.choice(choices)
         if k == "ref":
             full = r.choice(list(self.defined))
+            nulls = [d for d in self.defined if "." not in d]
+            if ns == "" and nulls and r.random() < 0.5:
+                full = r.choice(nulls)                # from a null-namespace context: prefer the null-namespace types
             sp = self.ref_spelling(ns, full)
             if sp is None:
                 k = "prim"
